@@ -251,8 +251,8 @@ def run(ctx):
         ctx.coverage["trees_by_front_end_status_and_nesting"] = res["wf_by_status"]
         ctx.coverage["positions_in_unmodelled_type_syntax"] = res["opaque"]
         ctx.coverage["front_end_panics_not_attributed_to_C20"] = st["front_end_panics"]
-        ctx.coverage["exhaustive"] = True
-        ctx.coverage["exhaustive_bound"] = "every byte offset 0..=len of every generated program variant (complete, truncated after each token, each single token deleted)"
+        ctx.coverage["exhaustive"] = False
+        ctx.coverage["per_program_enumeration"] = "programs are sampled; for each program ALL variants (complete, truncated after each token, each single token deleted) and for each variant EVERY byte offset 0..=len are enumerated"
         ctx.coverage["samples"] = res["samples"]
         for pe in res["protocol_errors"][:3]:
             ctx.log("protocol error:", pe)
